@@ -7,7 +7,7 @@ from ..context import Context
 from ..guards import guards_of
 from ..load import AnalysisError, FuncInfo, Names, chain, norm, own_nodes, parent
 from ..norm import UNKNOWN, guard_atoms, peval
-from .common import calls_named, fkey, trees, where
+from .common import calls_named, effective_body, fkey, trees, where
 from .lf import split_lossless
 
 
@@ -43,7 +43,7 @@ def run(ctx: Context) -> None:
         for m, want in (("write", ["self._stream.write(buffer,timeout)", "self._stream.write(buffer,timeout=timeout)"]), (t("aclose"), [f"self._stream.{t('aclose')}()"]),
                         ("start_tls", ["self._stream.start_tls(ssl_context,server_hostname,timeout)"]), ("get_extra_info", ["self._stream.get_extra_info(info)"])):
             f = up.methods[m]
-            calls = [norm(s.value).replace("await", "") for s in f.node.body if isinstance(s, (ast.Expr, ast.Return)) and s.value is not None and not isinstance(s.value, ast.Constant)]
+            calls = [norm(s.value).replace("await", "") for s in effective_body(f.node.body) if isinstance(s, (ast.Expr, ast.Return)) and s.value is not None and not isinstance(s.value, ast.Constant)]
             rep.ob("C17.R1", fkey(tree, f, "delegates"), len(calls) == 1 and calls[0] in want, where(f), f"{m} -> {calls}")
         init = up.methods["__init__"]
         st = {norm(n.targets[0]): norm(n.value) for n in own_nodes(init.node) if isinstance(n, ast.Assign)}
@@ -64,11 +64,12 @@ def run(ctx: Context) -> None:
                     for test, pol in guards_of(c):
                         if "status" not in norm(test):
                             continue
-                        v = peval(test, {"status": status, "request.method": method})
-                        if v is UNKNOWN:
-                            got = UNKNOWN
-                        elif bool(v) != pol and got is not UNKNOWN:
-                            got = False
+                        for alt in ctx.prov.expand(test, f11, c, pure=True):
+                            v = peval(alt, {"status": status, "request.method": method})
+                            if v is UNKNOWN:
+                                got = UNKNOWN
+                            elif bool(v) != pol and got is not UNKNOWN:
+                                got = False
                     if got is UNKNOWN or bool(got) != want:
                         rows[f"{status},{method.decode()}"] = f"{got} (want {want})"
             rep.ob("C17.R2", fkey(tree, f11, "wrap-condition"), not rows, where(f11, c), "wrapped iff status == 101 or (CONNECT and 2xx)" if not rows else f"wrap condition deviates: {rows}")
